@@ -277,7 +277,10 @@ func (e *Engine) setupIntrinsics() {
 		return e.convert(st, types.NewSlice(types.Typ[types.Uint8]), types.Typ[types.String], b)
 	}
 	n["internal/bytealg.MakeNoZero"] = func(e *Engine, st *State, fn *ssa.Function, a []Value) Value {
-		k := argInt(a[0])
+		k := int(e.concInt(st, a[0].(*Term), types.Typ[types.Int], "MakeNoZero length"))
+		if k < 0 {
+			e.goPanic(st, "runtime error: makeslice: len out of range")
+		}
 		return e.newSlice(st, types.Typ[types.Uint8], k, k)
 	}
 	n["sort.Slice"] = nativeSortSlice
